@@ -484,6 +484,13 @@ def _acl_misc(unit, ctx):
                 kw = dict(platform=plat, version=cfg["version"], port_nr=cfg["port_nr"],
                           protocol_nr=cfg["protocol_nr"], indent=" ")
                 _acl_fix("Acl", text, kw, ctx)
+    # fully numbered ACL, group_by, the same heading twice (blocks merge: numbers out of order)
+    b = [u.text(plat) for u in usable if u.is_ace][:3]
+    lines = ["10 remark = h", f"20 {b[0]}", "30 remark = other", f"40 {b[1]}", "50 remark = h", f"60 {b[2]}"]
+    for order in (lines, lines[2:4] + lines[:2] + lines[4:], list(reversed(lines))):
+        text = PR.header(plat, "A") + "\n" + "\n".join(" " + x for x in order)
+        _acl_fix("Acl", text, dict(platform=plat, indent=" ", group_by="= "), ctx)
+        _acl_fix("Acl", text, dict(platform=plat, indent=" "), ctx)
     ctx.sample("acl_misc", dict(platform=plat, names=ACL_NAMES))
 
 
